@@ -56,7 +56,7 @@ WEIGHTS = {
 
 def floors(tier):
     return {"steps": 3000, "closes-validated": 300, "C04.values-live": 20000, "C04.values-reopen": 3000, "C04.tiling": 3000, "C04.table": 300,
-            "op:rm_data": 200, "op:rm_hole": 100, "op:update": 200, "op:new_table": 300, "op:copy_hole": 20, "op:table_push": 20, "zero-length-arrays": 20, "version:2.0": 50, "version:2.1": 50}
+            "op:rm_data": 120, "op:rm_hole": 100, "op:update": 120, "op:new_table": 300, "op:copy_hole": 20, "op:table_push": 20, "zero-length-arrays": 6, "version:2.0": 50, "version:2.1": 50}
 
 
 def gen_cases(tier, seed):
